@@ -128,6 +128,7 @@ class Vncdo:
                 trace.append(("cb", tok))
                 return c
             return ((m, (), {}), (defer.passthru, (), {}))
+        self.ncmds = len(cbs) - 1
         for i, pair in enumerate(cbs[:-1]):
             new += [marker("start:%d" % i), pair, marker("finish:%d" % i)]
 
